@@ -44,6 +44,7 @@ type Config struct {
 	DisableLRU         bool
 	Engine             string
 	WCrash, WReload    int  // per mille of steps
+	PoolAtMin          bool // C27: rewards pool at its minimum balance (rewards rate 0)
 	Intx               bool // C09: half of the park faults land INSIDE the storage transactions (crash there / fault there)
 	WPark              int  // per mille of steps: park the block write / tracker commit at a named site, then crash there or query meanwhile
 	SleepPct           int
@@ -116,6 +117,9 @@ func drawConfig(tp *kernel.Tape, prop, tier string) Config {
 		c.WPark = 60
 	}
 	c.Intx = prop == "C09"
+	if prop == "C27" {
+		c.PoolAtMin = tp.Chance("cfg.poolmin", 3, 4)
+	}
 	if f := cfgTweaks[prop]; f != nil {
 		f(&c, func(kind string, lo, hi int) int { return tp.Range(kind, lo, hi) })
 	}
@@ -490,7 +494,7 @@ func (s *Sim) run() {
 		s.lcfg.CatchpointTracking = 2 // track and always write catchpoint files
 		s.lcfg.CatchpointFileHistoryLength = 1000
 	}
-	s.init, s.genBal = Genesis(s.cfg.Online)
+	s.init, s.genBal = Genesis(s.cfg.Online, s.cfg.PoolAtMin)
 	s.states[0] = genesisState(s.genBal, s.init.Block.BlockHeader)
 	s.blocks[0] = s.init.Block
 	s.ledDir = filepath.Join(s.dir, "led0")
